@@ -357,6 +357,109 @@ func checkC08(w *World) {
 		w.check(P, "R08.6", "bounds in grammar."+fn.Name(), fn.Pos(), bad == "", orElse(bad, "no unguarded computed index"))
 	})
 	w.floor(P, "R08.6", 5)
+	w.literalDelimiters(P, f, r)
+}
+
+// literalDelimiters (R08.7): the Literal token keeps its delimiters; the value of the literal is what lies between
+// them, so exactly one byte is removed from each end. Character-set trimming (strings.Trim and friends) also eats
+// quotes of the other kind at the ends of the content ("'a'" is the three characters 'a').
+func (w *World) literalDelimiters(P string, f *Facts, r *Roles) {
+	docRule(P, "R08.7", "F G<->H", "the handler of every production whose alternates are all a single quoted-string token (Literal) stores String(text[1 : len(text)-1]) of the token text: exactly one delimiter byte is removed from each end and nothing else is done to the content (XPath 1.0 literals have no escapes and may contain quotes of the other kind anywhere).")
+	n := 0
+	var nts []string
+	for nt := range f.Alts {
+		nts = append(nts, nt)
+	}
+	sort.Strings(nts)
+	for _, nt := range nts {
+		alts := f.Alts[nt]
+		quoted := len(alts) > 0
+		for _, a := range alts {
+			if len(a.Syms) != 1 || a.Syms[0].IsNT || (a.Syms[0].Name != "singlequote" && a.Syms[0].Name != "doublequote") {
+				quoted = false
+			}
+		}
+		if !quoted {
+			continue
+		}
+		h := f.Handlers[nt]
+		if h == nil {
+			w.check(P, "R08.7", "literal production "+nt, 0, false, "no handler registered for a quoted-string production")
+			n++
+			continue
+		}
+		stores := 0
+		for _, g := range w.handlerClosure(h.Fn) {
+			allInstrs(g, func(in ssa.Instruction) {
+				st, ok := in.(*ssa.Store)
+				if !ok {
+					return
+				}
+				fa, ok := st.Addr.(*ssa.FieldAddr)
+				if !ok || fa.Field != r.CtxResultField {
+					return
+				}
+				stores++
+				n++
+				v := stripConv(st.Val)
+				for i := 0; i < 4; i++ {
+					switch x := v.(type) {
+					case *ssa.MakeInterface:
+						v = stripConv(x.X)
+					case *ssa.ChangeType:
+						v = stripConv(x.X)
+					}
+				}
+				v = throughCells(v)
+				ok, why := false, fmt.Sprintf("the stored value is %s, not a slice [1:len-1] of the token text", describeValue(v))
+				if sl, isSl := v.(*ssa.Slice); isSl {
+					base := throughCells(sl.X)
+					lowOK := false
+					if sl.Low != nil {
+						if k, isK := constInt(sl.Low); isK && k == 1 {
+							lowOK = true
+						}
+					}
+					highOK := false
+					if bo, isBO := sl.High.(*ssa.BinOp); isBO && bo.Op == token.SUB {
+						if k, isK := constInt(bo.Y); isK && k == 1 {
+							if c, isC := bo.X.(*ssa.Call); isC && isLenOf(c, nil) && throughCells(c.Call.Args[0]) == base {
+								highOK = true
+							}
+						}
+					}
+					fromText := false
+					if c, isC := base.(*ssa.Call); isC {
+						if sc := staticCallee(c); sc != nil && fnPkgKey(sc) == "grammar" {
+							fromText = true
+						}
+					}
+					ok = lowOK && highOK && fromText
+					why = fmt.Sprintf("slice of the token text: low bound 1: %v, high bound len-1 of the same string: %v, sliced value is the token text: %v", lowOK, highOK, fromText)
+				}
+				w.check(P, "R08.7", "literal production "+nt+": value stored by "+g.Name(), st.Pos(), ok, why)
+			})
+		}
+		if stores == 0 {
+			n++
+			w.check(P, "R08.7", "literal production "+nt, h.Fn.Pos(), false, "the handler stores no result")
+		}
+	}
+	w.floor(P, "R08.7", 1)
+}
+
+func describeValue(v ssa.Value) string {
+	switch x := v.(type) {
+	case *ssa.Call:
+		return "the result of " + calleeName(x)
+	case *ssa.Slice:
+		return "a slice expression"
+	case *ssa.Const:
+		return "a constant"
+	case *ssa.Phi:
+		return "a value merged from several paths"
+	}
+	return fmt.Sprintf("%T", v)
 }
 
 // valueOrigin names the call a value (transitively through extract/phi-free chains) comes from.
